@@ -535,3 +535,86 @@ Theorem c04_log_narrow_refuted :
     kstate_eqb (r_final (rl_res rs)) ex_state = true /\ r_ncmds (rl_res rs) = 28.
 Proof. exact narrow_refuted. Qed.
 Print Assumptions c04_log_narrow_refuted.
+
+(* ================================================================== *)
+(* The environment of firewall.main outside the packet filter           *)
+(* (Model/FwEnv.v): how the control channel ends (EOF or a read error), *)
+(* a failing STARTED write, a failing hosts-file update in the wait     *)
+(* loop or at restore, a failing resolver-cache flush.                  *)
+From SV Require Import Model.FwEnv Proofs.FwEnv_lemmas.
+
+(* with nothing of that failing, session_e IS the session all theorems above speak about *)
+Theorem c04_env_neutral : forall c cut faults s0,
+  session_e c cut faults wenv_none s0 = session c cut faults s0.
+Proof. exact session_e_neutral. Qed.
+Print Assumptions c04_env_neutral.
+
+(* whatever that environment does (every class of read error, every failing write of STARTED,
+   a hosts-file update failing at any HOST line or at restore, the resolver flush failing in the
+   try block or in the finally block), for every method incl. pf, every cut, every set of failing
+   commands and every kernel state: the packet-filter commands issued, the point where the
+   tear-down starts, pf.py's context and the final packet-filter state are those of `session` —
+   so every exit theorem of this file holds for these exits as well. *)
+Theorem c04_wait_phase_invisible : forall c cut faults w s0,
+  let r := session_e c cut faults w s0 in
+  let r' := session c cut faults s0 in
+  r_final r = r_final r' /\ r_ncmds r = r_ncmds r' /\ r_fin_at r = r_fin_at r' /\
+  r_py r = r_py r' /\ cmds_of (r_events r) = cmds_of (r_events r').
+Proof. exact session_e_invisible. Qed.
+Print Assumptions c04_wait_phase_invisible.
+
+(* firewall.py:360-365: a write of STARTED that fails with an IOError (EPIPE: the client is gone)
+   is the same session as the channel closing right after the GO line *)
+Theorem c04_started_failure_is_cut : forall c cut faults w s0 e,
+  c_nlines c <= cut ->
+  w_flush_setup w = None -> w_started w = Some e -> started_swallows e = true ->
+  session_e c cut faults w s0 = session c (c_nlines c) faults s0.
+Proof. exact session_e_started_failure. Qed.
+Print Assumptions c04_started_failure_is_cut.
+
+(* firewall.py:226-237: a read error of a class below OSError (ECONNRESET of a socketpair whose
+   peer died with unread data, EIO, ...) is the same session as an EOF at that point *)
+Theorem c04_read_error_is_eof : forall c cut faults w s0 e,
+  read_swallows e = true ->
+  session_e c cut faults (mkWenv (CErr e) (w_flush_setup w) (w_started w) (w_hosts_fail w)
+                                 (w_hosts_restore_fail w) (w_flush_teardown w)) s0 =
+  session_e c cut faults (mkWenv CEof (w_flush_setup w) (w_started w) (w_hosts_fail w)
+                                 (w_hosts_restore_fail w) (w_flush_teardown w)) s0.
+Proof. exact session_e_read_error. Qed.
+Print Assumptions c04_read_error_is_eof.
+
+(* the classes a dead socket or pipe raises are caught; others are not (they end the helper
+   through the finally block all the same: c04_wait_phase_invisible) *)
+Example c04_env_classes :
+  read_swallows CConnectionResetError = true /\ read_swallows COSError = true /\
+  read_swallows CTimeoutError = true /\ started_swallows CBrokenPipeError = true /\
+  read_swallows CValueError = false /\ started_swallows CRuntimeError = false.
+Proof. vm_compute. repeat split. Qed.
+
+(* ------------------------------------------------------------------ *)
+(* Finding F120 (repaired by pending_fixes/F120.diff): the helper's      *)
+(* SIGINT/SIGTERM handler relays with os.kill(sshuttle_pid, SIGINT); as  *)
+(* found it lets ProcessLookupError escape when that process is gone.    *)
+(* With the repaired handler a signal changes nothing: the session is    *)
+(* `session`, and every theorem above applies.  As found, the exception  *)
+(* lands in whatever the helper is doing; inside the finally block it    *)
+(* ends the restore of one family (Model/FwEnv.v session_sig_asfound).   *)
+Theorem c04_signal_relay_asfound_refuted :
+  exists k,
+    let r := session_sig_asfound cfg_nat (full_cut cfg_nat) no_faults (sig_at k) ex_state in
+    let r' := session cfg_nat (full_cut cfg_nat) no_faults ex_state in
+    r_fin_at r' <= k /\ k < r_ncmds r' /\
+    kstate_eqb (r_final r') ex_state = true /\ r_ncmds r' = 28 /\
+    r_outcome r = ExitReturn /\ r_ncmds r = 24 /\
+    kstate_eqb (r_final r) ex_state = false /\ no_divert cfg_nat (r_final r) = false.
+Proof. exact sig_relay_asfound_refuted. Qed.
+Print Assumptions c04_signal_relay_asfound_refuted.
+
+(* where a family's restore is one command (nft) even the raising handler is harmless:
+   for every plan, cut, fault set, kernel state and every moment(s) the exception arrives *)
+Theorem c04_signal_nft_harmless : forall c cut faults ab s0,
+  c_method c = MNft ->
+  r_final (session_sig_asfound c cut faults ab s0) = r_final (session c cut faults s0) /\
+  r_events (session_sig_asfound c cut faults ab s0) = r_events (session c cut faults s0).
+Proof. exact sig_nft_harmless. Qed.
+Print Assumptions c04_signal_nft_harmless.
